@@ -29,6 +29,9 @@
 (*  S.lost    = <<dev, part>> pairs reported lost by failures              *)
 (*  S.cnt[label][d], S.lastlevel[d], S.lastres[r]: recorded datapoints     *)
 (*  S.nleaf   = number of leaf parts generated so far                      *)
+(*  S.occ, S.sd = what the callbacks registered on the devices saw during  *)
+(*              the last step (receipts, finished parts; shutdown and      *)
+(*              restored callbacks), in order - reset at every step        *)
 (*                                                                         *)
 (* Times are ticks (1/4 time unit); 0 is "no part", -1 is "none/infinite". *)
 (* The configuration is the variable cfg (chosen once, never changed), the *)
@@ -79,7 +82,8 @@ S0 == [now |-> 0,
        cnt |-> [l \in Labels |-> [d \in Devs |-> 0]],
        lastlevel |-> [d \in Devs |-> None],
        lastres |-> [r \in Resources |-> <<0, cfg.pools[r]>>],
-       nleaf |-> 0, inited |-> FALSE]
+       nleaf |-> 0, inited |-> FALSE,
+       occ |-> <<>>, sd |-> <<>>]
 
 (***************************************************************************)
 (* Queue                                                                   *)
@@ -243,7 +247,8 @@ RECURSIVE FinishCycle(_, _), TryMoveToOutput(_, _), Give(_, _, _, _), GiveFirst(
 
 CycleInEffect(S, d, p) ==
     LET c == cfg.devs[d] IN
-    IF Kind(d) = "processor" /\ c.cycmod > 0 THEN c.cyc + (S.part[p].seq % c.cycmod) ELSE c.cyc
+    IF Kind(d) \in {"buffer", "batcher"} THEN 0       \* no cycle time of their own
+    ELSE IF Kind(d) = "processor" /\ c.cycmod > 0 THEN c.cyc + (S.part[p].seq % c.cycmod) ELSE c.cyc
 
 ScheduleFinish(S, d, ct) ==
     LET t == Max(0, ct + S.dev[d].off)
@@ -274,7 +279,8 @@ FinishCycle(S, d) ==
                                             !.quality = IF c.qset > 0 THEN 1 + (S2.part[i].seq % c.qset)
                                                         ELSE IF c.qinc THEN @ + 1 ELSE @]
                           ELSE @[i]]] IN
-            Record([S3 EXCEPT !.dev[d].off = @ + c.foff], "produced_part", d)
+            Record([S3 EXCEPT !.dev[d].off = @ + c.foff,
+                              !.occ = Append(@, <<"prod", d, p, S3.part[p].quality, ValueOf(S3, p), 0, 0>>)], "produced_part", d)
       [] OTHER ->   \* handler
             SchedulePass([S EXCEPT !.dev[d].out = S.dev[d].inp, !.dev[d].inp = 0], d)
 
@@ -332,8 +338,10 @@ Accept(S, d, p) ==
         S3 == Record(S2, "received_part", d)
         \* receive callback of the configuration: one-shot offset for even parts
         S4 == IF cfg.devs[d].offmod # 0 /\ ~S3.part[p].batch /\ S3.part[p].seq % 2 = 0
-              THEN [S3 EXCEPT !.dev[d].off = @ + cfg.devs[d].offmod] ELSE S3 IN
-    IF S4.dev[d].out = 0 THEN TryMoveToOutput(S4, d) ELSE S4
+              THEN [S3 EXCEPT !.dev[d].off = @ + cfg.devs[d].offmod] ELSE S3
+        S5 == [S4 EXCEPT !.occ = Append(@, <<"recv", d, p, S4.part[p].quality, ValueOf(S4, p),
+                                             CycleInEffect(S4, d, p), S4.dev[d].off>>)] IN
+    IF S5.dev[d].out = 0 THEN TryMoveToOutput(S5, d) ELSE S5
 
 (* give_part: [ok, S].  A refusal by a processor may still change the state (waiting for resources). *)
 Give(S, d, p, depth) ==
@@ -414,11 +422,12 @@ PassPart(S, d) ==
 
 ReleaseIfIdle(S, d) == IF S.dev[d].down \/ S.dev[d].inp = 0 THEN ReleaseHeld(S, d) ELSE S
 
-(* PartProcessor._shutdown *)
-Shutdown(S, d, isFailure) ==
-    IF S.dev[d].down THEN (IF isFailure THEN CancelEvents(S, d) ELSE S)
+(* PartProcessor._shutdown; three shutdown callbacks are registered on every processor *)
+Cb3(S, kind, d, isf, p) == [S EXCEPT !.sd = @ \o << <<kind, d, 1, isf, p>>, <<kind, d, 2, isf, p>>, <<kind, d, 3, isf, p>> >>]
+Shutdown(S, d, isFailure, lost) ==
+    IF S.dev[d].down THEN (IF isFailure THEN Cb3(CancelEvents(S, d), "down", d, TRUE, lost) ELSE S)
     ELSE LET S1 == [S EXCEPT !.dev[d].down = TRUE, !.dev[d].wsince = None] IN
-         IF isFailure THEN CancelEvents(S1, d) ELSE PauseEvents(S1, d)
+         Cb3(IF isFailure THEN CancelEvents(S1, d) ELSE PauseEvents(S1, d), "down", d, isFailure, lost)
 
 (* PartProcessor._fail *)
 Fail(S, d) ==
@@ -426,14 +435,15 @@ Fail(S, d) ==
         S1 == ReleaseHeld([S EXCEPT !.dev[d].inp = 0], d)
         S2 == Record(S1, "device_failure", d)
         S3 == IF p # 0 THEN [S2 EXCEPT !.lost = Append(@, <<d, p>>)] ELSE S2 IN
-    Shutdown(S3, d, TRUE)
+    Shutdown(S3, d, TRUE, p)
 
 (* PartProcessor.restore_functionality *)
 Restore(S, d) ==
     IF ~S.dev[d].down THEN S
-    ELSE LET S1 == UnpauseEvents([S EXCEPT !.dev[d].down = FALSE], d) IN
-         IF S1.dev[d].out # 0 THEN SchedulePass(S1, d)
-         ELSE IF S1.dev[d].inp = 0 THEN NotifyUp(S1, d, 0) ELSE S1
+    ELSE LET S1 == UnpauseEvents([S EXCEPT !.dev[d].down = FALSE], d)
+             S2 == IF S1.dev[d].out # 0 THEN SchedulePass(S1, d)
+                   ELSE IF S1.dev[d].inp = 0 THEN NotifyUp(S1, d, 0) ELSE S1 IN
+         Cb3(S2, "up", d, FALSE, 0)
 
 (* ResourceManager._check_pending_requests with the processors' callback *)
 RECURSIVE ScanWaiters(_, _)
@@ -460,7 +470,7 @@ Adjust(S, s, v) ==
 
 Script(S, c) ==
     CASE c.call = "fail"     -> SchedArg(S, S.now + c.arg, c.dev, "fail", 50, 0)
-      [] c.call = "shutdown" -> Shutdown(S, c.dev, FALSE)
+      [] c.call = "shutdown" -> Shutdown(S, c.dev, FALSE, 0)
       [] c.call = "restore"  -> Restore(S, c.dev)
       [] c.call = "block"    -> SetBlock(S, c.dev, TRUE)
       [] c.call = "unblock"  -> SetBlock(S, c.dev, FALSE)
@@ -480,7 +490,7 @@ Tick(S, t) ==
 
 (* Environment.step with e the popped event *)
 Dispatch(S, e) ==
-    LET S1 == [Tick(S, e.time) EXCEPT !.q = @ \ {e}] IN
+    LET S1 == [Tick(S, e.time) EXCEPT !.q = @ \ {e}, !.occ = <<>>, !.sd = <<>>] IN
     IF e.cancelled THEN S1
     ELSE CASE e.kind = "finish"  -> FinishCycle(S1, e.asset)
            [] e.kind = "pass"    -> PassPart(S1, e.asset)
